@@ -1,8 +1,107 @@
 import JrsVerif.Common.J
+import JrsVerif.Model.Loc
+import JrsVerif.Model.Tile
 
 namespace JrsVerif.Drv.C17
-open Lean JrsVerif.J
+open Lean JrsVerif.J JrsVerif.Loc
 
-def handle (_op : String) (_j : Json) : Option Json := none
+def chars (a : Array Json) : List Char := (nats a).map Char.ofNat
+
+def locJson (l : CodeLocation) : Json := ofNats [l.offset, l.line, l.column, l.lineStart, l.lineEnd]
+
+def natLists (a : Array Json) : List (List Nat) :=
+  a.toList.map (fun x => match x with | .arr b => nats b | _ => [])
+
+/-- all offsets are character boundaries of `text` -/
+def allSplit (text : List Char) (offs : List Nat) : Option (List (List Char × List Char)) :=
+  offs.mapM (Spec.splitAt? text)
+
+def isAsciiList (cs : List Char) : Bool := cs.all (fun c => c.toNat < 128)
+
+/-- start `(line, column)` of a printed location by the reference meaning -/
+def specStart (text : List Char) (o : Nat) : Option (Nat × Nat) :=
+  (Spec.splitAt? text o).map (fun p => (Spec.line p.1, Spec.column p.1))
+
+def handle (op : String) (j : Json) : Option Json :=
+  match op with
+  | "loc.map" =>
+    -- {"text":[code points],"queries":[[offsets],…]} → per query: the five fields of every location
+    match (do let t ← arr? j "text"; let q ← arr? j "queries"; pure (chars t, natLists q)) with
+    | none => some (bad "loc.map: parse")
+    | some (text, qs) =>
+      let model := qs.map (fun offs => Json.arr ((offsetToLocation text offs).map locJson).toArray)
+      let specs := qs.mapM (fun offs => (allSplit text offs).map (fun ps =>
+          Json.arr (ps.map (fun p => locJson (Spec.locate p.1 p.2))).toArray))
+      let mlines := qs.map (fun offs => ofNats ((offsetToLocation text offs).map (·.line)))
+      let slines := qs.map (fun offs => ofNats (offs.map (Spec.lineBytes text)))
+      let m := obj [("locs", .arr model.toArray), ("lines", .arr mlines.toArray)]
+      match specs with
+      | some ss => some (obj [("model", m),
+          ("spec", obj [("locs", .arr ss.toArray), ("lines", .arr slines.toArray)])])
+      | none => some (obj [("model", m)])
+  | "loc.frame" =>
+    -- {"text":…, "spans":[[a,b],…]} → what CompactFormat prints for a frame with that span
+    match (do let t ← arr? j "text"; let q ← arr? j "spans"; pure (chars t, natLists q)) with
+    | none => some (bad "loc.frame: parse")
+    | some (text, qs) =>
+      let pr := qs.map (fun ab =>
+        match offsetToLocation text ab with
+        | [s, e] => (printCodeLocation s e).render
+        | _ => "?")
+      some (obj [("model", obj [("printed", ofStrs pr)])])
+  | "loc.start" =>
+    -- {"text":…, "at":[offset,…]} → reference (line, column) of each planted construct; the column is
+    -- demanded only when the construct's own line is ASCII before it (else null)
+    match (do let t ← arr? j "text"; let q ← arr? j "at"; pure (chars t, nats q)) with
+    | none => some (bad "loc.start: parse")
+    | some (text, ats) =>
+      let one (o : Nat) : Json :=
+        match Spec.splitAt? text o with
+        | none => .str "not-a-boundary"
+        | some (pre, _) =>
+          let col : Json := if isAsciiList (Spec.linePrefix pre) then toJson (Spec.column pre) else .null
+          Json.arr #[toJson (Spec.line pre), col]
+      some (obj [("spec", obj [("start", .arr (ats.map one).toArray)])])
+  | "loc.line" =>
+    -- {"text":…, "at":[offset,…]} → reference line only (std.trace prints no column)
+    match (do let t ← arr? j "text"; let q ← arr? j "at"; pure (chars t, nats q)) with
+    | none => some (bad "loc.line: parse")
+    | some (text, ats) =>
+      let one (o : Nat) : Json :=
+        match Spec.splitAt? text o with
+        | none => .str "not-a-boundary"
+        | some (pre, _) => toJson (Spec.line pre)
+      some (obj [("spec", obj [("line", .arr (ats.map one).toArray)])])
+  | "lex.tile" =>
+    -- {"len":byte length,"ranges":[[s,e],…],"text":[code points]} : observation of the lexer output
+    match (do let n ← nat? j "len"; let r ← arr? j "ranges"; let t ← arr? j "text"
+              pure (n, natLists r, chars t)) with
+    | none => some (bad "lex.tile: parse")
+    | some (n, rs, text) =>
+      let pairs := rs.filterMap (fun r => match r with | [a, b] => some (a, b) | _ => none)
+      let okShape := pairs.length == rs.length
+      let tiles := Tile.tilesB 0 n pairs
+      let onBounds := pairs.all (fun p => (Spec.splitAt? text p.1).isSome && (Spec.splitAt? text p.2).isSome)
+      let lenOk := byteLen text == n
+      some (obj [("observed", toJson (okShape && tiles && onBounds && lenOk)),
+                 ("_tiles", toJson tiles), ("_onBounds", toJson onBounds)])
+  | "tree.text" =>
+    -- {"text":[code points],"tree":[code points] | null} : the rowan tree's text is the input
+    match (do let t ← arr? j "text"; pure (chars t)) with
+    | none => some (bad "tree.text: parse")
+    | some text =>
+      match arr? j "tree" with
+      | some tr => some (obj [("observed", toJson (chars tr == text))])
+      | none => some (obj [("observed", toJson false), ("_why", .str "no tree (panic)")])
+  | "ast.spans" =>
+    -- {"text":…, "spans":[[a,b],…]} : every AST span is inside the text, ordered, on char boundaries
+    match (do let t ← arr? j "text"; let q ← arr? j "spans"; pure (chars t, natLists q)) with
+    | none => some (bad "ast.spans: parse")
+    | some (text, qs) =>
+      let ok := qs.all (fun ab => match ab with
+        | [a, b] => a ≤ b && b ≤ byteLen text && (Spec.splitAt? text a).isSome && (Spec.splitAt? text b).isSome
+        | _ => false)
+      some (obj [("observed", toJson ok)])
+  | _ => none
 
 end JrsVerif.Drv.C17
